@@ -188,7 +188,7 @@ def run_dp(case, stt):
 def seq_case(draw):
     base = draw(dp_case())
     base["dask"] = False
-    ops = draw(st.lists(st.sampled_from(["to_stokes", "to_linear", "to_circular", "to_intensity", "chain", "inplace_scale", "inplace_add", "set_pol"]),
+    ops = draw(st.lists(st.sampled_from(["to_stokes", "to_linear", "to_circular", "to_intensity", "chain", "inplace_scale", "inplace_add", "set_pol", "refused_assignment"]),
                         min_size=2, max_size=6))
     return {"base": base, "ops": ops, "dask_too": draw(st.booleans())}
 
@@ -200,7 +200,7 @@ def run_seq(case, stt):
     first = {}
     data = data.copy()
     for op in case["ops"]:
-        if op in ("inplace_scale", "inplace_add", "set_pol"):
+        if op in ("inplace_scale", "inplace_add", "set_pol", "refused_assignment"):
             # sanctioned changes of the object between conversions: later conversions must describe the CURRENT samples / basis
             with lib(op):
                 if op == "inplace_scale":
@@ -209,6 +209,8 @@ def run_seq(case, stt):
                 elif op == "inplace_add":
                     np.add(z, 1, out=z)
                     data = data + 1
+                elif op == "refused_assignment":
+                    G.bad_assign(z, len(first) * 5 + len(case["ops"]) + case["ops"].index(op))
                 else:
                     z.pol_type = "circular" if z.pol_type == "linear" else "linear"
             twin = G.build(dict(spec, pol=str(z.pol_type)), data=data.copy())
